@@ -241,6 +241,7 @@ pub fn tree_walker(
         // into as well (a loop is reported as an error by the walk).
         for entry in WalkDir::new(&source)
             .follow_links(config.dereference)
+            .follow_root_links(config.dereference)
             .into_iter()
             .filter_entry(|e| ignore_filter(e, &gitignore))
         {
